@@ -548,6 +548,69 @@ def culprit(en, g, q, starts):
     return ("Query", local_shape(q))
 
 
+def rule_class_directed_membership(chk, rid):
+    """parse(encode(q)) == q for a one-segment query q = [seg] forces the whole text to be matched by an alternative of
+    `query_segment` whose parse action constructs type(seg): the canonical text of a segment must be derivable from a rule
+    that builds that kind of segment, not merely from *some* rule (e.g. `-nameR/x` is a fine transformation header but is
+    not the text of the resource segment that printed it)."""
+    repo = chk.repo
+    chk.rule(rid, "class-directed membership: the canonical text of a one-segment query is accepted by a `query_segment` alternative whose "
+                  "parse action constructs that segment's class (relaxed grammar: superset, so a rejection is definite)")
+    m = repo.module(P)
+    g = Grammar(m)
+    px = PrinterExtractor(repo)
+    _, env, rows = c03.extract(repo)
+    if "query_segment" not in g.IR:
+        raise AnalysisError("grammar rule query_segment not found")
+    by_class = {}
+    for alt in g.alternatives(g.IR["query_segment"]):
+        if alt.kind != "ref" or alt.kw["name"] not in g.IR:
+            continue
+        rn = alt.kw["name"]
+        for a in g.IR[rn].kw.get("actions", []):
+            fn = m.functions.get(a.id) if isinstance(a, ast.Name) else None
+            if fn is None:
+                continue
+            built = {c.func.id for r in ast.walk(fn) if isinstance(r, ast.Return) and r.value is not None
+                     for c in ast.walk(r.value) if isinstance(c, ast.Call) and isinstance(c.func, ast.Name) and c.func.id in NODE_CLASSES}
+            for c in built & {"TransformQuerySegment", "ResourceQuerySegment"}:
+                by_class.setdefault(c, []).append(rn)
+    chk.floor(rid, len(by_class), 2, "segment classes with a constructing query_segment alternative")
+    en = Enumerator(repo, g, px, rows, chk.tier)
+    n = 0
+    bad = {}
+    okc = {}
+    seen = set()
+    for q in en.pool("Query", 0):
+        segs = q.get("segments") or []
+        if len(segs) != 1 or q.get("absolute"):
+            continue
+        seg = segs[0]
+        c = seg["__class__"]
+        if c not in by_class or (c == "ResourceQuerySegment" and seg.get("header") is None):
+            continue
+        t = en.text(q)
+        if (c, t) in seen:
+            continue
+        seen.add((c, t))
+        n += 1
+        sk = (c, local_shape(seg), local_shape(seg["header"]) if isinstance(seg.get("header"), dict) else "no header")
+        if g.accepts(t, by_class[c]):
+            okc[sk] = okc.get(sk, 0) + 1
+        else:
+            bad.setdefault(sk, []).append(t)
+    chk.floor(rid, n, 20, "one-segment sentences")
+    chk.count("one-segment sentences tested against their own class's rules", n)
+    for sk in sorted(okc):
+        if sk not in bad:
+            chk.ob(rid, f"{P}.{sk[0]}.encode", True, f"shape {sk[1]} / header {sk[2]}: {okc[sk]} sentences accepted by {by_class[sk[0]]}",
+                   px.method(sk[0], "encode"), m, key=f"{sk[1]}|{sk[2]}")
+    for sk, ts in sorted(bad.items()):
+        chk.ob(rid, f"{P}.{sk[0]}.encode", False, f"shape {sk[1]} / header {sk[2]} prints {min(ts, key=len)!r}, which no rule constructing {sk[0]} "
+               f"({', '.join(by_class[sk[0]])}) accepts: it re-parses as a different kind of segment or not at all ({len(ts)} sentences)",
+               px.method(sk[0], "encode"), m, key=f"{sk[1]}|{sk[2]}")
+
+
 # --------------------------------------------------------------------------- C02.2
 def rule_encode_reads_fields(chk, rid):
     repo = chk.repo
@@ -654,8 +717,9 @@ def rule_token_canonicalisation(chk, rid):
     fixed point parse(encode(parse(t))) == parse(t) needs (writer applies the table then quotes once; every writer code
     is read back to its source; the reader unquotes exactly once on the joined tokens; expansions are percent-free)."""
     from ..core import Check
+    from ..core import run_rules
     sub = Check("C03", chk.repo, chk.tier)
-    c03.run(sub)
+    errs = run_rules(c03, sub)
     chk.rule(rid, "token-level canonicalisation is idempotent: premises T4, T6, T9, T13, T14, T16 of the C03 lemma hold "
                   "(writer = table then quote; each writer code read back to its source; unquote exactly once on the joined "
                   "tokens; expansions percent-free; link entity only at parameter start)")
@@ -666,6 +730,9 @@ def rule_token_canonicalisation(chk, rid):
             n += 1
             no = chk.ob(rid, o.construct, o.ok, f"[{o.rule[4:]}] {o.what}", key=f"{o.rule[4:]}:{o.key}", nontrivial=o.nontrivial)
             no.loc = o.loc
+    if errs:
+        # obligations already copied stay; the part of the lemma that could not be analysed is reported (exit 2 unless a violation was found)
+        raise AnalysisError("; ".join(errs[:2]))
     chk.floor(rid, n, 20, "token-level premises")
 
 
@@ -678,3 +745,4 @@ def run(chk):
                         "(ordered choice -> union, greedy -> any split, look-ahead -> epsilon)",
                         "urllib.parse.quote (stdlib) models the library call made by encode_token (shape checked by C03.T4)"]
     X.rule_printer_injective(chk, "C02.6")
+    rule_class_directed_membership(chk, "C02.7")
